@@ -2,10 +2,13 @@ import NbioVerif.Properties.C15
 #print axioms Ws.c15_delivered_within
 #print axioms Ws.c15_buffered_within
 #print axioms Ws.c15_readAll_bound
+#print axioms Ws.c15_inflate_held
 #print axioms Ws.c15_readAll_grows
 #print axioms Ws.c15_oversize_refused
 #print axioms Ws.c15_1009
 #print axioms Ws.c15_control_recv
 #print axioms Ws.c15_control_refused
 #print axioms Ws.c15_control_send
-#print axioms Ws.c15_cache_bound
+#print axioms Ws.c15_cache_bound_by_limit
+#print axioms Ws.c15_cache_bound_counterexample
+#print axioms Ws.c15_cache_bound_partial
